@@ -287,8 +287,10 @@ class TransformToMarkdown:
     def __handle_pragma_processing(
         cls, pragma_token: PragmaToken, transformed_data: str
     ) -> str:
+        # Pragmas that use the alternate prefix are kept under the negative of their
+        # line number, so order and place every pragma by the line it came from.
         ordered_lines = collections.OrderedDict(
-            sorted(pragma_token.pragma_lines.items())
+            sorted(pragma_token.pragma_lines.items(), key=lambda item: abs(item[0]))
         )
 
         for next_line_number in ordered_lines:
@@ -302,7 +304,8 @@ class TransformToMarkdown:
                 f"pragma-->{ParserHelper.make_value_visible(detabified_pragma)}<--"
             )
 
-            if next_line_number == 1:
+            actual_line_number = abs(next_line_number)
+            if actual_line_number == 1:
                 if transformed_data:
                     transformed_data = (
                         f"{detabified_pragma}"
@@ -314,7 +317,7 @@ class TransformToMarkdown:
                 nth_index = ParserHelper.find_nth_occurrence(
                     transformed_data,
                     ParserHelper.newline_character,
-                    next_line_number - 1,
+                    actual_line_number - 1,
                 )
                 if nth_index == -1:
                     transformed_data = (
